@@ -572,6 +572,78 @@ func coordSlots(g *vkit.GJ) []*vkit.F {
 	return out
 }
 
+// multiplicity: a multi-geometry made of two or three distinct members, some of them several times, against a
+// partner with the same members (perturbed, in another order) in the same numbers (similar) or with one copy of a
+// member replaced by a copy of another ({X,X,Y} against {X,Y,Y}: every member of either side has a counterpart on the
+// other side, but no pairing one to one exists - not similar).
+func (b *builder) multiplicity() (g, h vkit.GJ, want bool, label string) {
+	typ := rapid.SampledFrom([]string{"MultiLineString", "MultiLineString", "Polygon", "MultiPolygon", "GeometryCollection"}).Draw(b.t, "multype")
+	k := rapid.IntRange(2, 3).Draw(b.t, "muldistinct")
+	cg := make([]int, k)
+	for i := range cg {
+		cg[i] = rapid.IntRange(1, 3).Draw(b.t, "mulcount")
+	}
+	ch := append([]int(nil), cg...)
+	want = rapid.IntRange(0, 2).Draw(b.t, "mulsame") == 0
+	if !want {
+		from := rapid.IntRange(0, k-1).Draw(b.t, "mulfrom")
+		if cg[from] == 1 {
+			cg[from], ch[from] = 2, 2 // the member that gives one away keeps one
+		}
+		to := (from + rapid.IntRange(1, k-1).Draw(b.t, "multo")) % k
+		ch[from]--
+		ch[to]++
+	}
+	type member struct {
+		line []vkit.P2
+		ring []vkit.P2
+	}
+	ms := make([]member, k)
+	for i := range ms {
+		ms[i] = member{line: b.pts(b.count(2, 5)), ring: b.ring()}
+	}
+	order := func(counts []int, lab string) []int {
+		var idx []int
+		for i, c := range counts {
+			for j := 0; j < c; j++ {
+				idx = append(idx, i)
+			}
+		}
+		return rapid.Permutation(idx).Draw(b.t, lab)
+	}
+	nt := false
+	build := func(idx []int, jitter bool) vkit.GJ {
+		out := vkit.GJ{T: typ}
+		for _, i := range idx {
+			line, ring := ms[i].line, ms[i].ring
+			if jitter {
+				line, ring = b.jitPts(line), b.jitRing(ring, &nt)
+			}
+			switch typ {
+			case "MultiLineString":
+				out.Rings = append(out.Rings, line)
+			case "Polygon":
+				out.Rings = append(out.Rings, ring)
+			case "MultiPolygon":
+				out.Polys = append(out.Polys, [][]vkit.P2{ring})
+			case "GeometryCollection":
+				if i%2 == 0 {
+					out.Geoms = append(out.Geoms, vkit.GJ{T: "LineString", Pts: line})
+				} else {
+					out.Geoms = append(out.Geoms, vkit.GJ{T: "Polygon", Rings: [][]vkit.P2{ring}})
+				}
+			}
+		}
+		return out
+	}
+	g = build(order(cg, "mulorderg"), false)
+	h = build(order(ch, "mulorderh"), true)
+	if want {
+		return g, h, true, "multiplicity:same_members_same_numbers"
+	}
+	return g, h, false, "multiplicity:one_copy_replaced_by_a_copy_of_another_member"
+}
+
 func gen(t *rapid.T) Case {
 	b := &builder{t: t, tol: rapid.SampledFrom([]float64{1e-6, 1e-3, 0.1, 1}).Draw(t, "tol")}
 	var c Case
@@ -606,6 +678,10 @@ func gen(t *rapid.T) Case {
 	}
 	if rapid.IntRange(0, 7).Draw(t, "closurecase") == 3 {
 		c.G, c.H, c.Want, c.Edit = b.closure()
+		return c
+	}
+	if rapid.IntRange(0, 11).Draw(t, "multiplicity") == 5 {
+		c.G, c.H, c.Want, c.Edit = b.multiplicity()
 		return c
 	}
 	c.G = b.geom(rapid.IntRange(0, 2).Draw(t, "depth"))
